@@ -215,6 +215,7 @@ func (w *World) exec(a *Actor, cl *store.Cluster, r *Req, run func() (store.Obj,
 		r.Returned = res
 	}
 	r.Err = err
+	r.StoreErr = err
 	return err
 }
 
